@@ -325,70 +325,65 @@ unsafe fn write_all_sub_paths(
     raw: *const u8,
 ) -> core::result::Result<(), rusl::Error> {
     let len = buf.len();
-    let mut it = 1;
-    loop {
-        // Iterate down
-        let ind = len - it;
-        if ind == 0 {
-            break;
-        }
-
-        let byte = buf[ind];
-        if byte == b'/' {
-            // Swap slash for null termination to make a valid path
-            buf[ind] = NULL_BYTE;
-
-            return match rusl::unistd::mkdir(
-                UnixStr::from_bytes_unchecked(&buf[..=ind]),
-                Mode::from(0o755),
-            ) {
-                // Successfully wrote, traverse down
+    // Iterate down until we find an ancestor that exists or can be created
+    let mut next = 1;
+    let mut ind = len - 1;
+    while ind > 0 {
+        if buf[ind] == b'/' {
+            match mkdir_up_to(buf, ind) {
                 Ok(()) => {
-                    // Replace the null byte to make a valid path concatenation
-                    buf[ind] = b'/';
-                    for i in ind + 1..len {
-                        // Found next
-                        if buf[i] == b'/' {
-                            // Swap slash for null termination to make a valid path
-                            buf[i] = NULL_BYTE;
-                            rusl::unistd::mkdir(
-                                UnixStr::from_bytes_unchecked(&buf[..=i]),
-                                Mode::from(0o755),
-                            )?;
-                            // Swap back to continue down
-                            buf[i] = b'/';
-                        }
-                    }
-                    // if we end on a slash we don't have to write the last part
-                    if unsafe { raw.add(len - 1).read() } == b'/' {
-                        return Ok(());
-                    }
-                    // We know the actual length is len + 1 and null terminated, try write full
-                    rusl::unistd::mkdir(
-                        UnixStr::from_bytes_unchecked(core::slice::from_raw_parts(raw, len + 1)),
-                        Mode::from(0o755),
-                    )?;
-                    Ok(())
+                    next = ind + 1;
+                    break;
                 }
-                Err(e) => {
-                    if let Some(code) = e.code {
-                        if code == Errno::ENOENT {
-                            it += 1;
-                            // Put slash back, only way we end up here is if we tried to write
-                            // previously replacing the slash with a null-byte
-                            buf[ind] = b'/';
-                            continue;
-                        } else if code == Errno::EEXIST {
-                            return Ok(());
-                        }
-                    }
-                    Err(e)
+                Err(e) if e.code == Some(Errno::EEXIST) => {
+                    next = ind + 1;
+                    break;
                 }
-            };
+                // Nothing there yet, keep going down
+                Err(e) if e.code == Some(Errno::ENOENT) => {}
+                Err(e) => return Err(e),
+            }
         }
-        it += 1;
+        ind -= 1;
     }
-    Ok(())
+    // Traverse back up, creating everything below that ancestor
+    for i in next..len {
+        if buf[i] == b'/' {
+            match mkdir_up_to(buf, i) {
+                // Repeated separators name the same directory twice
+                Err(e) if e.code != Some(Errno::EEXIST) => return Err(e),
+                _ => {}
+            }
+        }
+    }
+    // We know the actual length is len + 1 and null terminated, try write full
+    let full = UnixStr::from_bytes_unchecked(core::slice::from_raw_parts(raw, len + 1));
+    match rusl::unistd::mkdir(full, Mode::from(0o755)) {
+        Err(e) if e.code == Some(Errno::EEXIST) => {
+            // Only fine if what's already there is a directory
+            let stat = rusl::unistd::stat(full)?;
+            if Mode::from(stat.st_mode) & Mode::S_IFMT == Mode::S_IFDIR {
+                Ok(())
+            } else {
+                Err(e)
+            }
+        }
+        res => res,
+    }
+}
+
+/// Tries to create the directory at `buf[..ind]`, `buf[ind]` is a slash
+#[inline]
+unsafe fn mkdir_up_to(buf: &mut [u8], ind: usize) -> core::result::Result<(), rusl::Error> {
+    // Swap slash for null termination to make a valid path
+    buf[ind] = NULL_BYTE;
+    let res = rusl::unistd::mkdir(
+        UnixStr::from_bytes_unchecked(&buf[..=ind]),
+        Mode::from(0o755),
+    );
+    // Put slash back to continue
+    buf[ind] = b'/';
+    res
 }
 
 pub struct Directory(OwnedFd);
